@@ -495,6 +495,7 @@ CLAUSES = {
     "plm_compiled": "compiled AssocLegendre.evaluate_batch returns the orthonormal Pbar_l^m(x) in (m,l) order",
     "plm_python": "assoc_legendre.AssocLegendre.evaluate_batch returns the orthonormal Pbar_l^m(x) in (m,l) order",
     "expand": "complete_coefficients(real analysis) == complex analysis of the same real function: c(l,-m) = (-1)^m conj c(l,m)",
+    "dtype_independent": "analysis of grid samples stored as float32 / complex64 equals the analysis of the same numbers stored as float64 / complex128 (to 1e-12 relative)",
     "linear_analysis": "analysis(a f + b g) == a analysis(f) + b analysis(g)",
     "linear_synthesis": "synthesis(a c + b d) == a synthesis(c) + b synthesis(d)",
     "parseval_real": "real transform: integral |f|^2 == sum_l |c_l0|^2 + 2 sum_(m>0) |c_lm|^2",
@@ -519,6 +520,24 @@ def _native_one_L(nat, seed, L, reps, L_ref, L_py, L_single):
     xs, wsr = roots_legendre(s.ntheta)
     nat.check("grid", np.concatenate([s.phi, s.cos_theta, s.weights, [s.weights.sum()], np.cos(th[:, 0]), ph[0, :]]),
               np.concatenate([2 * np.pi * np.arange(s.nphi) / s.nphi, xs, 2 * np.pi * wsr, [4 * np.pi], xs, 2 * np.pi * np.arange(s.nphi) / s.nphi]), inp)
+    # a grid chosen by the caller (more points than the default): the same grid rule and an exact round trip on it
+    if L in (0, 1, 2, 3, 5, 8, 13, 21, 34, 48, 64):
+        n2, t2 = 2 * int(s.nphi) + 2 * (L % 3), int(s.ntheta) + 2 + (L % 4)
+        inp2 = {"L": L, "nphi": n2, "ntheta": t2, "grid": "passed explicitly to the constructor"}
+        try:
+            s2 = SHT(L, nphi=n2, ntheta=t2)
+            th2, ph2 = s2.grid
+            xs2, ws2 = roots_legendre(t2)
+            nat.check("grid", np.concatenate([s2.phi, s2.cos_theta, s2.weights, np.cos(th2[:, 0]), ph2[0, :], [s2.nphi, s2.ntheta]]),
+                      np.concatenate([2 * np.pi * np.arange(n2) / n2, xs2, 2 * np.pi * ws2, xs2, 2 * np.pi * np.arange(n2) / n2, [n2, t2]]), inp2)
+            c2 = random_real_coeffs(np.random.default_rng([seed, L, 77]), L)
+            v2 = s2.synthesis(c2)
+            nat.check("roundtrip_real_as", s2.analysis(v2), c2, inp2)
+            # the function synthesised on the finer grid is the same function: sampled at the default grid's own points it gives the default synthesis
+            k_t, k_p = 1 % s.ntheta, 1 % s.nphi
+            nat.check("pointwise_real", [s2.evaluate_at_points(c2, float(th[k_t, 0]), float(ph[0, k_p]))], [s.synthesis(c2)[k_t, k_p]], inp2)
+        except Exception as e:  # noqa
+            nat.check("no_exception", np.zeros(1), np.ones(1), dict(inp2, raised=repr(e)[:160]))
     for rep in range(reps):
         rng = np.random.default_rng([seed, L, rep])
         inp = {"L": L, "rep": rep, "coefficients": "numpy default_rng([seed, L, rep]) standard normal re+im"}
@@ -554,6 +573,20 @@ def _native_one_L(nat, seed, L, reps, L_ref, L_py, L_single):
             vdd = s.synthesis(dd)
             nat.check("linear_synthesis", s.synthesis(al * cc + be * dd), al * vc + be * vdd, inp)
             nat.check("linear_analysis", s.analysis(al * vc + be * vdd), al * ac + be * s.analysis(vdd), inp)
+            for kf in (1e-18, 1e12):
+                nat.check("linear_analysis", s.analysis(kf * vc) / kf, ac, dict(inp, scaled_by=kf, transform="complex"))
+                nat.check("linear_synthesis", s.synthesis(kf * cc) / kf, vc, dict(inp, scaled_by=kf, transform="complex"))
+            # a real function written in the complex (all m) layout: the complex transform treats it like any other coefficient vector
+            ch = s.complete_coefficients(c)
+            vh = s.synthesis(ch)
+            nat.check("roundtrip_cplx_as", s.analysis(vh), ch, dict(inp, coefficients="complete_coefficients(real coefficient set): Hermitian symmetric, all m"))
+            nat.check("ref_cplx_synthesis", np.asarray(vh).real, v, dict(inp, coefficients="complete_coefficients(real coefficient set)"))
+        # the samples handed over in single precision (exactly representable values): the transform itself is carried out in double precision
+        v32 = v.astype(np.float32)
+        nat.check("dtype_independent", s.analysis(v32), s.analysis(v32.astype(np.float64)), dict(inp, samples_dtype="float32"), scale=1e-2 * max(1.0, float(np.max(np.abs(a)))))
+        if L >= 1:
+            vc64 = vc.astype(np.complex64)
+            nat.check("dtype_independent", s.analysis(vc64), s.analysis(vc64.astype(np.complex128)), dict(inp, samples_dtype="complex64"), scale=1e-2 * max(1.0, float(np.max(np.abs(ac)))))
         if L in L_ref and rep == 0:
             # ---- against the independent reference -----------------------------------------------------------
             cfull = full_from_real(L, c)
@@ -1291,7 +1324,7 @@ def build(ctx):
         "pointwise_evaluation": ["pointwise_real", "pointwise_cplx", "pointwise_near_pole"],
         "pointwise_evaluation_at_the_poles": ["pointwise_pole"],
         "real_to_full_expansion": ["expand"],
-        "linearity": ["linear_analysis", "linear_synthesis"],
+        "linearity": ["linear_analysis", "linear_synthesis", "dtype_independent"],
         "parseval": ["parseval_real", "parseval_cplx"],
         "grid": ["grid"],
         "no_exception": ["no_exception"],
